@@ -284,6 +284,7 @@ var targets = []target{
 	{pkg: "gws", fn: "Upgrader.doUpgradeFromConn", lean: "Upgrader_keyAndAccept",
 		from: "var websocketKey =", to: "rw.WithSubProtocol",
 		doc: "the Sec-WebSocket-Key check and the Sec-WebSocket-Accept line of the response"},
+	{pkg: "gws", fn: "ServerOption.deleteProtectedHeaders", lean: "ServerOption_deleteProtectedHeaders"},
 	{pkg: "gws", fn: "connector.request", lean: "connector_request_headers",
 		from: "r.Header.Set(internal.Connection.Key", to: "var ch = make",
 		oracles: map[string]string{"c.option.PermessageDeflate.genRequestHeader()": "offer", "internal.AlphabetNumeric.Uint64()": "rnd"},
@@ -1384,7 +1385,7 @@ func (f *fn) assigned(n ast.Node) []string {
 		case *ast.ExprStmt:
 			if c, ok := s.X.(*ast.CallExpr); ok {
 				text := strings.Join(strings.Fields(f.src(c.Fun)), "")
-				if strings.HasSuffix(text, ".Header.Set") {
+				if strings.HasSuffix(text, ".Header.Set") || strings.HasSuffix(text, "Header.Del") {
 					note(c.Fun.(*ast.SelectorExpr).X)
 				}
 				switch text {
@@ -1804,6 +1805,12 @@ func (f *fn) block(list []ast.Stmt, k cont) string {
 		}
 		if text == "binaryPool.Put" {
 			return next()
+		}
+		if strings.HasSuffix(text, "Header.Del") { // http.Header.Del(k)
+			h := f.lvalueName(c.Fun.(*ast.SelectorExpr).X)
+			k := f.expr(c.Args[0])
+			f.flush(&sb)
+			return sb.String() + fmt.Sprintf("let %s := Hs.del %s %s\n", h, h, k) + next()
 		}
 		if strings.HasSuffix(text, ".Header.Set") { // http.Header.Set(k, v)
 			h := f.lvalueName(c.Fun.(*ast.SelectorExpr).X)
